@@ -2,20 +2,20 @@
 C12 — hidden objects leave no trace; private objects are always marked private.
 
 Over the `Output` model (the producer table of DESIGN.md §7 C12 as a function from the object table to the
-`taglink` requests and listing entries, then the visibility guard inside `taglink`, aaed9bd) and the
-`Privacy` model.  Traversal lemmas, `origin` and `mem_emits` are in PdProps/C11.lean.
+`taglink` requests and listing entries, then the visibility guard inside `taglink`, aaed9bd; root rows
+guarded since 4b6324b) and the `Privacy` model.  Traversal lemmas, `origin` and `mem_emits` are in
+PdProps/C11.lean.
 
 * `Privacy.hidden_inherits` / `Output.hidden_inherits` / `Output.hidden_inside`: a hidden container makes
   everything inside it invisible.
-* `Output.no_trace` (all 28 rows): a mention of an object that is not visible is never a hyperlink
-  (`no_trace_links`) and can only be one of the two root rows; `Output.no_trace_files`: no page file,
-  anchor, search document or inventory line.
+* `Output.no_trace` (all 28 rows, full strength, no hypothesis): every emitted mention — hyperlink or
+  listing element — is for a visible object; `Output.no_trace_files`: no page file, anchor, search document
+  or inventory line.
 * `Output.private_marked` / `public_unmarked`: the marker on the 9 listing rows.
-* Still false of the current code (open findings): the rows of a hidden *root* in moduleIndex.html /
-  index.html (`no_trace_partial` under "no root is hidden", `no_trace_counterexample_root`), and the
-  unlinked base nodes of classIndex.html (`no_trace_texts_partial` under `noHiddenBaseNames`,
-  `no_trace_texts_counterexample`).
-* `no_trace_counterexample_old`: historical (DESIGN §8-11, before aaed9bd).
+* Still false of the current code (open finding): the unlinked base nodes of classIndex.html
+  (`no_trace_texts_partial` under `noHiddenBaseNames`, `no_trace_texts_counterexample`).
+* historical: `no_trace_counterexample_old` (DESIGN §8-11, before aaed9bd), `no_trace_counterexample_root_old`
+  (root rows, before 4b6324b).
 -/
 import PdProps.C11
 
@@ -98,13 +98,12 @@ theorem hidden_inside {s : Sys} (w : WF s) {a i : Nat} (hd : Desc s a i) (hh : (
   | false => rfl
   | true => exact absurd hh (visible_not_hidden (visible_of_desc w hd hv))
 
-/-- what the code path of an entry row establishes about its target: visible, except for the two rows
-that iterate `rootobjects` without a guard -/
-theorem entry_visible {s : Sys} {r : Emit} (h : r ∈ requests s) (he : r.row.isEntry = true)
-    (hroot : r.row.rootRow = false) : visible s r.target = true := by
+/-- what the code path of every entry row establishes about its target: it is visible (since 4b6324b
+also for the root rows of moduleIndex.html and index.html) -/
+theorem entry_visible {s : Sys} {r : Emit} (h : r ∈ requests s) (he : r.row.isEntry = true) :
+    visible s r.target = true := by
   have ho := origin h
-  cases hrow : r.row <;> rw [hrow] at he hroot <;>
-    (first | exact absurd he (by decide) | exact absurd hroot (by decide) | skip) <;>
+  cases hrow : r.row <;> rw [hrow] at he <;> (first | exact absurd he (by decide) | skip) <;>
     simp only [Origin, hrow] at ho
   case table => exact ho.2.2.1
   case initTable => exact ho.2.2.1
@@ -112,34 +111,29 @@ theorem entry_visible {s : Sys} {r : Emit} (h : r ∈ requests s) (he : r.row.is
   case detail => exact ho.2.1
   case sidebarItem => exact ho.2.2.1
   case sidebarInherited => exact ho.2.2
+  case modIndexRoot => exact ho.2.2.2
   case modIndex => exact ho.2.2.1
   case classIndex => exact ho.2
   case nameIndex => exact ho.2
   case undoc => exact ho.2
+  case indexRoots => exact ho.2.2
   case allDocs => exact ho.2.2
 
-/-- **C12, every producer row.** Since aaed9bd `taglink` builds no hyperlink to an object that is not
-visible, whoever calls it; and every listing element (table row, member details, sidebar item, index
-entry, search document) is written for a visible object only — with one exception, the rows of the *roots*
-in moduleIndex.html and index.html, which are written (name as plain text) even for a hidden root.
-So: a mention of an object that is hidden, or inside a hidden one, is never a hyperlink, and is one of
-those two root rows. -/
-theorem no_trace {s : Sys} {e : Emit} (h : e ∈ emits s) :
-    visible s e.target = true ∨ (e.linked = false ∧ e.row.rootRow = true) := by
-  rcases mem_emits h with ⟨_, hv⟩ | ⟨hl, hv, r, hr, he, hrow, ht, _⟩
-  · exact .inl hv
-  · cases hroot : e.row.rootRow with
-    | true => exact .inr ⟨hl, rfl⟩
-    | false =>
-      have := entry_visible hr he (hrow ▸ hroot)
-      rw [ht, hv] at this
-      cases this
-
-/-- no hyperlink anywhere targets an object that is not visible -/
-theorem no_trace_links {s : Sys} {e : Emit} (h : e ∈ emits s) (hl : e.linked = true) : visible s e.target = true := by
-  rcases no_trace h with hv | ⟨hf, _⟩
+/-- **C12, every producer row, full strength.** Every hyperlink and every listing element (table row,
+member details, sidebar item, index entry, search document) the run emits is for a visible object: since
+aaed9bd `taglink` builds no hyperlink to an object that is not visible, whoever calls it, and every row
+that writes an element of its own tests `isVisible` itself (since 4b6324b the root rows of
+moduleIndex.html and index.html too). An object that is hidden, or inside a hidden one, is not mentioned. -/
+theorem no_trace {s : Sys} {e : Emit} (h : e ∈ emits s) : visible s e.target = true := by
+  rcases mem_emits h with ⟨_, hv⟩ | ⟨_, hv, r, hr, he, _, ht, _⟩
   · exact hv
-  · rw [hl] at hf; cases hf
+  · have := entry_visible hr he
+    rw [ht, hv] at this
+    cases this
+
+/-- in particular no hyperlink anywhere targets an object that is not visible -/
+theorem no_trace_links {s : Sys} {e : Emit} (h : e ∈ emits s) (_ : e.linked = true) : visible s e.target = true :=
+  no_trace h
 
 /-- **C12** a hidden object (or anything inside one) has no page file, no anchor, no search document
 and no inventory line -/
@@ -199,43 +193,22 @@ theorem public_unmarked {s : Sys} {e : Emit} (h : e ∈ emits s) (hl : e.row.lis
   rw [marker_of h hl]
   split <;> simp [isPrivate, cssPrivate, hp]
 
-/-! ### what is still false of the current code: rows that name a hidden object in an index -/
+/-! ### what is still false of the current code: the unlinked base nodes of classIndex.html -/
 
-/-- **C12, all mentions, under an explicit hypothesis.** The full statement
--- theorem no_trace_all : ∀ e ∈ emits s, visible s e.target = true
-is FALSE of the current code: `ModuleIndexPage.stuff` and `IndexPage.roots` iterate `rootobjects` without
-a visibility test; `taglink` refuses the link, the row (with the root's name, and in moduleIndex.html its
-summary) is written all the same (`no_trace_counterexample_root`, known finding). It holds when no root
-is hidden. -/
-theorem no_trace_partial {s : Sys} (hroots : s.roots.all (visible s) = true) {e : Emit} (h : e ∈ emits s) :
-    visible s e.target = true := by
-  rcases mem_emits h with ⟨_, hv⟩ | ⟨_, hv, r, hr, he, hrow, ht, _⟩
-  · exact hv
-  · cases hroot : r.row.rootRow with
-    | false =>
-      have := entry_visible hr he hroot
-      rw [ht, hv] at this; cases this
-    | true =>
-      have ho := origin hr
-      have hmem : r.target ∈ s.roots := by
-        cases hr' : r.row <;> rw [hr'] at hroot <;> (first | exact absurd hroot (by decide) | skip) <;>
-          simp only [Origin, hr'] at ho
-        case modIndexRoot => exact ho.2.2
-        case indexRoots => exact ho.2
-      have := List.all_eq_true.mp hroots _ hmem
-      rw [ht, hv] at this; cases this
-
-/-- two roots, one hidden: moduleIndex.html and index.html still have a row for it -/
+/-- two roots, one hidden -/
 def sHiddenRoot : Sys :=
   { objs := #[ mkObj ['a'] .module none .hidden [], { mkObj ['b'] .module none .pub [] with modul := some 1 } ],
     all := [0, 1], roots := [0, 1], depth := 1, nosidebar := false }
 
-theorem no_trace_counterexample_root :
+/-- historical (between aaed9bd and 4b6324b): `ModuleIndexPage.stuff` and `IndexPage.roots` iterated
+`rootobjects` without a visibility test; `taglink` refused the link but the row of the hidden root was written
+all the same, with its name as plain text. Now no emitted mention targets it. -/
+theorem no_trace_counterexample_root_old :
     wf sHiddenRoot = true ∧ visible sHiddenRoot 0 = false ∧
     ([Row.indexRoots, Row.modIndexRoot].all fun r =>
-      (emits sHiddenRoot).any fun e => e.row == r && e.target == 0 && !e.linked) = true ∧
-    -- no hyperlink to it any more (aaed9bd)
-    (emits sHiddenRoot).all (fun e => !(e.target == 0 && e.linked)) = true := by
+      (rootRowsOld sHiddenRoot).any fun e => e.row == r && e.target == 0 && !e.linked) = true ∧
+    -- fixed code
+    (emits sHiddenRoot).all (fun e => e.target != 0) = true := by
   decide
 
 /-- the unlinked root nodes of classIndex.html name no object that is not visible, *provided* no listed
@@ -378,7 +351,7 @@ theorem no_trace_counterexample_old :
 
 /-- a private class in a public module: listed (and marked) in the module's table, the sidebar, the
 search documents -/
-example : wf sPlain = true ∧ noHiddenBaseNames sPlain = true ∧ sPlain.roots.all (visible sPlain) = true ∧
+example : wf sPlain = true ∧ noHiddenBaseNames sPlain = true ∧ (emits sPlain).all (fun e => visible sPlain e.target) = true ∧
     ((emits sPlain).filter fun e => e.row.listing && e.target == 1).length = 4 ∧
     ((emits sPlain).filter fun e => e.row.listing && e.target == 1).all (fun e => e.marked == some true) = true := by
   decide
